@@ -8,6 +8,7 @@ from sa.cfg import forward_states
 from sa.model import AnalysisError, access_path, unparse
 
 from .shared import (
+    defs_of,
     calls_in,
     connection_class,
     dispatch_table,
@@ -176,6 +177,10 @@ def _benign_raise_site(ctx, f, node, req, facts_at):
                     continue
                 if isinstance(n.func, ast.Attribute) and n.func.attr == "get" and isinstance(n.func.value, (ast.Name, ast.Dict)):
                     if isinstance(n.func.value, ast.Dict) or n.func.value.id == req:
+                        continue
+                    # a local that only ever holds a dict display, or a plain copy of the message
+                    vals = [v for _, v in defs_of(ctx, f, n.func.value.id)]
+                    if vals and all(isinstance(v, ast.Dict) or isinstance(v, ast.Name) and v.id == req for v in vals):
                         continue
                 return False
             if isinstance(n, ast.Raise):
